@@ -359,37 +359,57 @@ def _fill_rows(run, f):
                     idx_removed = st.targets[0].id
             if isinstance(v, ast.Call) and (dotted(v.func) or [""])[-1] == "flatnonzero" and len(v.args) == 1 and norm(v.args[0]) == mask:
                 idx_removed = st.targets[0].id
-        # inverse[isin(inverse, removed)] = FILL   |   inverse[mask[inverse]] = FILL
-        set_fill = False
-        fill_stores = [st for st in S.stores_into(fn, inv) if S.is_fill(st.value)]
-        for st in fill_stores:
-            sel_nodes, names = defs.closure(st.targets[0].slice)
-            if idx_removed and any(isinstance(n, ast.Call) and (dotted(n.func) or [""])[-1] == "isin" and [norm(a) for a in n.args[:2]] == [inv, idx_removed] for e in sel_nodes for n in ast.walk(e)):
-                set_fill = True
-            if any(isinstance(n, ast.Subscript) and norm(n.value) == mask and norm(n.slice) == inv for e in sel_nodes for n in ast.walk(e)):
-                set_fill = True
-        if not set_fill:
-            (unknown if fill_stores else probs).append("the inverse entries that point at removed (fill) pairs are not replaced by INT_FILL_VALUE")
-        # renumbering: inverse[sel] -= searchsorted(removed, inverse, side='right')[sel]  for the non-fill entries
-        ren = False
-        updates = [st for st in iter_stmts(fn.body) if isinstance(st, ast.AugAssign) and ((isinstance(st.target, ast.Subscript) and norm(st.target.value) == inv) or norm(st.target) == inv)]
-        updates += [st for st in S.assigns(fn, inv) if isinstance(st.value, (ast.BinOp, ast.Call)) and inv in {m.id for m in ast.walk(st.value) if isinstance(m, ast.Name)}
-                    and not (isinstance(st.value, ast.Call) and (dotted(st.value.func) or [""])[-1] == "unique")]
-        for st in updates:
-            if not (isinstance(st, ast.AugAssign) and isinstance(st.op, ast.Sub) and isinstance(st.target, ast.Subscript)):
-                continue
-            nodes, _ = defs.closure(st.value)
-            ss = [n for e in nodes for n in ast.walk(e) if isinstance(n, ast.Call) and (dotted(n.func) or [""])[-1] == "searchsorted"]
-            for s_ in ss:
-                side = next((k.value for k in s_.keywords if k.arg == "side"), None)
-                if idx_removed and [norm(a) for a in s_.args[:2]] == [idx_removed, inv]:
-                    if str_const(side) == "right":
-                        ren = True
-                    else:
-                        side_txt = norm(side) if side is not None else "left (the default)"
-                        probs.append(f"renumbering uses searchsorted(..., side={side_txt}): an entry equal to a removed position is not counted")
-        if not ren and not any("renumbering uses" in p_ for p_ in probs):
-            (unknown if updates else probs).append("remaining inverse entries are not shifted down by the number of removed pairs that precede them (searchsorted(removed, inverse, side='right'))")
+        def renumbering(fn_, inv_, idx_removed_, mask_, defs_):
+            """(probs, unknown) for the two in-place steps on the inverse indices, in function fn_ with the given local names"""
+            probs, unknown = [], []
+            # inverse[isin(inverse, removed)] = FILL   |   inverse[mask[inverse]] = FILL
+            set_fill = False
+            fill_stores = [st for st in S.stores_into(fn_, inv_) if S.is_fill(st.value)]
+            for st in fill_stores:
+                sel_nodes, names = defs_.closure(st.targets[0].slice)
+                if idx_removed_ and any(isinstance(n, ast.Call) and (dotted(n.func) or [""])[-1] == "isin" and [norm(a) for a in n.args[:2]] == [inv_, idx_removed_] for e in sel_nodes for n in ast.walk(e)):
+                    set_fill = True
+                if any(isinstance(n, ast.Subscript) and mask_ is not None and norm(n.value) == mask_ and norm(n.slice) == inv_ for e in sel_nodes for n in ast.walk(e)):
+                    set_fill = True
+            if not set_fill:
+                (unknown if fill_stores else probs).append("the inverse entries that point at removed (fill) pairs are not replaced by INT_FILL_VALUE")
+            # renumbering: inverse[sel] -= searchsorted(removed, inverse, side='right')[sel]  for the non-fill entries
+            ren = False
+            updates = [st for st in iter_stmts(fn_.body) if isinstance(st, ast.AugAssign) and ((isinstance(st.target, ast.Subscript) and norm(st.target.value) == inv_) or norm(st.target) == inv_)]
+            updates += [st for st in S.assigns(fn_, inv_) if isinstance(st.value, (ast.BinOp, ast.Call)) and inv_ in {m.id for m in ast.walk(st.value) if isinstance(m, ast.Name)}
+                        and not (isinstance(st.value, ast.Call) and (dotted(st.value.func) or [""])[-1] == "unique")]
+            for st in updates:
+                if not (isinstance(st, ast.AugAssign) and isinstance(st.op, ast.Sub) and isinstance(st.target, ast.Subscript)):
+                    continue
+                nodes, _ = defs_.closure(st.value)
+                ss = [n for e in nodes for n in ast.walk(e) if isinstance(n, ast.Call) and (dotted(n.func) or [""])[-1] == "searchsorted"]
+                for s_ in ss:
+                    side = next((k.value for k in s_.keywords if k.arg == "side"), None)
+                    if idx_removed_ and [norm(a) for a in s_.args[:2]] == [idx_removed_, inv_]:
+                        if str_const(side) == "right":
+                            ren = True
+                        else:
+                            side_txt = norm(side) if side is not None else "left (the default)"
+                            probs.append(f"renumbering uses searchsorted(..., side={side_txt}): an entry equal to a removed position is not counted")
+            if not ren and not any("renumbering uses" in p_ for p_ in probs):
+                (unknown if updates else probs).append("remaining inverse entries are not shifted down by the number of removed pairs that precede them (searchsorted(removed, inverse, side='right'))")
+            return probs, unknown
+        p1, u1 = renumbering(fn, inv, idx_removed, mask, defs)
+        if p1 and not u1:
+            # nothing of the kind in the builder itself: the steps may have been moved into a procedure of the module that receives the inverse indices
+            from ..loader import FuncInfo
+            from ..astutil import LocalDefs as _LD
+            for st in iter_stmts(fn.body):
+                if isinstance(st, ast.Expr) and isinstance(st.value, ast.Call) and any(isinstance(a_, ast.Name) and a_.id == inv for a_ in st.value.args):
+                    h = run.program.resolve_expr(f.module, st.value.func, f)
+                    if isinstance(h, FuncInfo) and h.cls is None:
+                        hp = h.params()
+                        amap = {a_.id: hp[i] for i, a_ in enumerate(st.value.args) if isinstance(a_, ast.Name) and i < len(hp)}
+                        if inv in amap:
+                            p1, u1 = renumbering(h.node, amap[inv], amap.get(idx_removed), None, _LD(h.node))
+                            break
+        probs += p1
+        unknown += u1
     if probs:
         run.violation("IDX/fill-pairs", c, where(f), "; ".join(probs))
     elif unknown:
